@@ -55,13 +55,21 @@ func c19Unit(endpoint string, shard, nshards int) vh.Unit {
 		var overrides []ov
 		overrides = append(overrides, ov{absent: true})
 		for _, scheme := range []string{"enode://", "http://", ""} {
-			for _, user := range []string{"own", "other", "empty", "own:pw", "other:pw", "none"} {
+			for _, user := range []string{"own", "other", "empty", "own:pw", "other:pw", "none", "own-bare", "other-bare"} {
 				for _, h := range []string{"1.2.3.4", "example.org", "[2001:db8::1]", "[fe80::2%25eth1]", "[::]", "0.0.0.0", ""} {
 					for _, port := range []string{"", "30303", "1", "65535"} {
 						for _, tail := range []string{"", "/x", "?discport=0"} {
 							o := ov{scheme: scheme, user: user, h: h, port: port}
 							t := scheme
+							if strings.HasSuffix(user, "-bare") && (h != "" || tail != "") {
+								continue // only the id (and maybe a port): "<id>", "enode://<id>", "enode://<id>:30303"
+							}
 							switch user {
+							case "own-bare":
+								t += host.NodeID
+							case "other-bare":
+								t += other.NodeID
+								o.otherID = true
 							case "own":
 								t += host.NodeID + "@"
 							case "other":
@@ -138,7 +146,7 @@ func c19Unit(endpoint string, shard, nshards int) vh.Unit {
 				if !o.absent && o.port != "" {
 					wantPort = o.port
 				}
-				wellFormed := o.absent || (o.scheme == "enode://" && (o.user == "own" || o.user == "none" || o.user == "empty" || o.user == "own:pw"))
+				wellFormed := o.absent || (o.scheme == "enode://" && (o.user == "own" || o.user == "none" || o.user == "empty" || o.user == "own:pw" || o.user == "own-bare"))
 				u.Observe(fmt.Sprintf("%v %v %s %s %v", accepted, o.absent, o.user, src.name, hostGiven))
 				switch {
 				case accepted != stored || (accepted && pw.Pool.NumRemotes() != 1) || (!accepted && pw.Pool.NumRemotes() != 0):
@@ -169,9 +177,13 @@ func c19Unit(endpoint string, shard, nshards int) vh.Unit {
 					continue
 				}
 				h, p, serr := net.SplitHostPort((*url.URL)(parsed).Host)
-				if !o.absent && o.scheme == "" && serr == nil {
+				if !o.absent && o.scheme == "" && serr == nil && o.h != "" {
 					// a scheme-less override is not a URI: whether its host part is honoured is not judged
 					wantHost, wantPort = h, p
+				}
+				if o.user == "own-bare" && o.scheme == "" && o.port == "" {
+					// nothing but the node's own id: no address was supplied, the default applies
+					wantHost, wantPort = srcHost, "30303"
 				}
 				if serr != nil || h != wantHost || p != wantPort {
 					u.Violate("uri/stored-address-not-dialable", fmt.Sprintf("%s: stored %q: host:port %q splits into (%q,%q,%v), expected host %q port %q", desc, node.URI, (*url.URL)(parsed).Host, h, p, serr, wantHost, wantPort), nil)
